@@ -236,6 +236,10 @@ define(void)
 				p->flags |= PARAMVAR;
 			} else {
 				p->name = tokencheck(&tok, TIDENT, "of macro parameter name or '...'");
+				for (i = 0; i < params.len / sizeof(*p) - 1; ++i) {
+					if (strcmp(((struct macroparam *)params.val)[i].name, p->name) == 0)
+						error(&tok.loc, "duplicate macro parameter '%s'", p->name);
+				}
 			}
 		}
 		scan(t);  /* first token in replacement list */
@@ -246,6 +250,8 @@ define(void)
 	m->nparam = params.len / sizeof(m->param[0]);
 
 	/* read macro body */
+	if (t->kind == TIDENT && strcmp(t->lit, "__VA_ARGS__") == 0 && !macrovarargs(m))
+		error(&t->loc, "__VA_ARGS__ can only be used in variadic function-like macros");
 	i = macroparam(m, t);
 	while (t->kind != TNEWLINE && t->kind != TEOF) {
 		if (t->kind == THASHHASH)
